@@ -1,10 +1,21 @@
-#!/bin/sh
+#!/bin/bash
 # run_seeded_ids.sh <id>... : run the given seeded changes (e.g. C03-4 C03-5 C10-4), one lane per property in
 # parallel (at most $LANES lanes, default 5); results (VIOLATION / violation lines) in /tmp/seedres/<id>.txt
 mkdir -p /tmp/seedres
 LANES=${LANES:-5}
+lane() {
+  prop=$1; shift
+  for id in "$@"; do
+    sh /verif/tools/run_seeded.sh $prop /verif/seeded/$id 12 > /tmp/seedres/$id.txt 2>&1
+  done
+  git -C /repo worktree remove --force /tmp/mutrepo_$prop 2>/dev/null
+}
 props=$(for id in "$@"; do echo ${id%-*}; done | sort -u)
+n=0
 for prop in $props; do
-  ids=$(for id in "$@"; do [ "${id%-*}" = "$prop" ] && echo $id; done | tr '\n' ' ')
-  echo "$prop $ids"
-done | xargs -P $LANES -L 1 sh -c 'prop=$0; for id in "$@"; do sh /verif/tools/run_seeded.sh $prop /verif/seeded/$id 12 > /tmp/seedres/$id.txt 2>&1; done; git -C /repo worktree remove --force /tmp/mutrepo_$prop 2>/dev/null'
+  ids=$(for id in "$@"; do [ "${id%-*}" = "$prop" ] && echo $id; done)
+  lane $prop $ids &
+  n=$((n+1))
+  if [ $n -ge $LANES ]; then wait -n 2>/dev/null || wait; n=$((n-1)); fi
+done
+wait
